@@ -73,7 +73,6 @@ theorem headerNew_eq (d : Bytes) (h : 3 ≤ d.length) : headerNew (d.take 3) = .
     or_eq_add 8 (Nat.dvd_mul_left _ _) b2
   simp only [assertR, hl, COMMON, beq_self_eq_true, if_true, R.ok_bind, R.pure_eq, hdrOf, hdrSyn,
     hdrLen, and_80 _ b1, and_0f _ b1, Nat.shiftLeft_eq, hm]
-  rfl
 
 /-! ### configuration ↔ kind, invariants -/
 
@@ -168,7 +167,8 @@ theorem bufContinue_eq (cfg : Cfg) (s : St) (data : Bytes)
         have h8 : 8 ≤ (s.buf ++ List.take n data).length := by simp; omega
         have : TSH ≤ (List.drop 3 (s.buf ++ List.take n data)).length := by
           rw [List.length_drop]; simp only [TSH]; omega
-        simp [sliceFrom_ok _ 3 hbl, assertR, this]
+        simp only [TSH, List.length_drop, List.length_append, List.length_take] at this
+        simp [sliceFrom_ok _ 3 hbl, assertR, this, TSH]
     · have e0 : (n - data.length == 0) = false := by simp; omega
       simp [e0, hle]
 
@@ -342,7 +342,8 @@ theorem dedupStart_eq (cfg : Cfg) (s : St) (data : Bytes) (off : Nat)
     have hv : tshVersion (List.drop 3 data) = .ok ((byteD data 5 >>> 1) &&& 0b0001_1111) := by
       unfold tshVersion
       rw [byteAt_ok _ 2 (by rw [List.length_drop]; omega), byteD_drop]
-      simp [assertR, h5]
+      simp only [TSH, List.length_drop] at h5
+      simp [assertR, h5, TSH]
     simp only [if_true, COMMON, sliceFrom_ok data 3 (by omega), R.ok_bind, hv]
     split
     · rfl
@@ -358,33 +359,35 @@ theorem procStart_eq (cfg : Cfg) (hc : CfgOk cfg) (s : St) (data : Bytes) (off :
       · have := hc h; rw [hss] at this; cases this
     have hk : minHeader (kindOf cfg) = 3 := by simp [kindOf, hss, minHeader]
     simp only [hk, hdrOf, COMMON, SECTION_LIMIT]
-    cases h1 : hdrSyn data
-    · by_cases h2 : data.length < 3
+    by_cases h1 : hdrSyn data = true
+    · simp [h1]
+    · simp only [Bool.not_eq_true] at h1
+      by_cases h2 : data.length < 3
       · have : ¬ (3 ≤ data.length) := by omega
-        simp [h2, this]
+        simp [h1, h2, this]
       · have h2' : 3 ≤ data.length := by omega
         by_cases h3 : hdrLen data > 1021
         · have : ¬ (hdrLen data ≤ 1021) := by omega
-          simp [h2, h3, this]
+          simp [h1, h2, h3, this]
         · have h3' : hdrLen data ≤ 1021 := by omega
-          simp only [Bool.false_eq_true, if_false, h2, h3, h2', h3', beq_self_eq_true, decide_true,
+          simp only [h1, Bool.false_eq_true, if_false, h2, h3, h2', h3', beq_self_eq_true, decide_true,
             Bool.and_self, if_true]
           exact dedupStart_eq cfg _ data off (by intro h; rw [hd] at h; cases h)
-    · simp
   · have hk : minHeader (kindOf cfg) = 8 := by simp [kindOf, hss, minHeader]
     simp only [hk, hdrOf, COMMON, TSH, SECTION_LIMIT]
-    cases h1 : hdrSyn data
-    · simp
-    · by_cases h2 : data.length < 3 + 5
+    by_cases h1 : hdrSyn data = true
+    case neg => simp only [Bool.not_eq_true] at h1; simp [h1]
+    case pos =>
+      by_cases h2 : data.length < 3 + 5
       · have : ¬ (8 ≤ data.length) := by omega
-        simp [h2, this]
+        simp [h1, h2, this]
       · have h2' : 8 ≤ data.length := by omega
         by_cases h3 : hdrLen data > 1021
         · have : ¬ (hdrLen data ≤ 1021) := by omega
-          simp [h2, h3, this]
+          simp [h1, h2, h3, this]
         · have h3' : hdrLen data ≤ 1021 := by omega
           have h5 : 5 ≤ (List.drop 3 data).length := by rw [List.length_drop]; omega
-          simp only [Bool.not_true, Bool.false_eq_true, if_false, h2, h3, h2', h3', beq_self_eq_true,
+          simp only [h1, Bool.not_true, Bool.false_eq_true, if_false, h2, h3, h2', h3', beq_self_eq_true,
             decide_true, Bool.and_self, if_true, sliceFrom_ok data 3 (by omega), R.ok_bind, assertR,
             ge_iff_le, h5]
           exact dedupStart_eq cfg _ data off (fun _ => h2')
